@@ -58,7 +58,8 @@ CHECKS = {
         "text": ("Lean theorems (unbounded): for every tree, request list and fuel the result of the transcribed FollowLinks is bytewise sorted and no element "
                  "is inside another (followLinks_sorted_prefix_free, from sortBytes_sorted, dedupe_sorted and dedupe_prefix_free - an invariant over the loop); "
                  "the result is 'everything' exactly when the root was resolved (dedupe_none_iff_root); kernel-checked witnesses for the unrepaired/repaired "
-                 "de-duplication. Correspondence: "
+                 "de-duplication; the answer of the transcribed resolver does not depend on its fuel once the fuel flag stays down "
+                 "(model_run_is_the_unbounded_run; the flag is reported for every case and a raised flag is a broken correspondence). Correspondence: "
                  "FollowLinks over synthetic and on-disk views with relative/absolute/'..'/chained/cyclic/self/dangling links and wildcard requests vs the "
                  "transcribed resolver (0 disagreements on the generated cases); oracle: the chroot-style reference resolver (every traversed link and the "
                  "final location covered by the result, empty result when the root is reached, sorted, prefix-free); termination by a 5 s watchdog. End to end "
@@ -114,7 +115,9 @@ CHECKS = {
     "C19": {
         "text": ("Lean theorems (unbounded): the chunked listing buffer flattens to the concatenation of its frames for every chunk capacity and frame size "
                  "(buffer_flatten); with the repaired counter every registered id is the entry's position in the full STAT sequence for every stream "
-                 "(ids_are_stat_indices), the unrepaired code only for streams without the listing name (…_partial, ids_shifted_witness). Correspondence: real "
+                 "(ids_are_stat_indices), the unrepaired code only for streams without the listing name (…_partial, ids_shifted_witness); the listing is the stream minus "
+                 "the listing name (listing_is_stream_minus_own_name); for every canonical stream and selector the pending-ancestor stack forwards exactly the selected "
+                 "entries plus the directories above them, in order, once (forwarded_is_selected_plus_ancestors; premise mcanonB evaluated on every real stream). Correspondence: real "
                  "metadata-only transfers (sources containing the listing name, multi-chunk listings, stats > 32 KiB, prior listing files/symlinks) vs the "
                  "byte-level Lean model: REQ ids, decoded listing file, destination = selected entries + needed ancestors (C01 spec on the projected view)."),
         "note": ("Trusted: Lean kernel + standard axioms; the listing is decoded in the harness with the generic protobuf runtime (falling back to the library "
@@ -149,7 +152,9 @@ CHECKS = {
     },
     "C03": {
         "text": ("Lean theorems (unbounded): a path passing the repaired lexical test consists of plain components only, so it names a strict descendant of "
-                 "dest (accepted_path_is_plain); an admitted hard link names an earlier admitted plain file (link_source_was_sent); validator theorems of C12. "
+                 "dest (accepted_path_is_plain); an admitted hard link names an earlier admitted plain file (link_source_was_sent); in every sequence the verbatim "
+                 "validator accepts, each ancestor path of each entry was announced earlier as a directory and no path is announced twice "
+                 "(every_component_is_an_announced_directory, nothing_is_announced_twice: no component of an accepted path is a symlink of the peer's making); validator theorems of C12. "
                  "Correspondence: hostile packet scripts (ill-formed paths, order/parent violations, children of files/symlinks, escaping hard links, symlink "
                  "entries with xattrs pointing outside, DATA for unrequested ids, ERR) against real Receive in a chroot'ed child with sentinel trees around dest; "
                  "the first offender predicted by the Lean admission model; oracle: nothing outside dest changed, failure, nothing at/after the offender applied."),
